@@ -617,7 +617,7 @@ func accessorAgreement(c *core.Ctx, R string) {
 	c.Rule(R, "accessor agreement (transports.transport, engine.socket, types.HttpContext): every one-parameter SetX method stores exactly its parameter into one field (f = p, f.Store(p) or f.Store(&p)), unconditionally, and the getter X / GetX / IsX of the same type reads that same field (f, f.Load(), *f.Load()) and no other field; Discard stores true into the field Discarded reads; Prototype/Proto likewise")
 	type tspec struct{ pkg, typ string }
 	n := 0
-	for _, ts := range []tspec{{"transports", "transport"}, {"engine", "socket"}, {"types", "HttpContext"}, {"engine", "baseServer"}, {"engine", "server"}} {
+	for _, ts := range []tspec{{"transports", "transport"}, {"engine", "socket"}, {"types", "HttpContext"}, {"engine", "baseServer"}, {"engine", "server"}, {"webtransport", "Conn"}} {
 		ms := map[string]*core.Unit{}
 		for _, m := range methodsOf(c, ts.pkg, ts.typ) {
 			ms[m.Decl.Name.Name] = m
